@@ -733,25 +733,48 @@ def do_directions(part, start, end, counter):
     result = []
 
     # ending directions
-    directions = part.iter_all(
-        score.DynamicDirection,
-        start.next,
-        end.next,
-        include_subclasses=True,
-        mode="ending",
+    ending_directions = list(
+        part.iter_all(
+            score.DynamicDirection,
+            start.next,
+            end.next,
+            include_subclasses=True,
+            mode="ending",
+        )
+    )
+    starting_directions = list(
+        part.iter_all(score.Direction, start, end, include_subclasses=True)
     )
 
-    for direction in directions:
+    # number the wedges and dashes that stop or start in this segment in the
+    # order of time (stops before starts at the same time, as they are
+    # written): a stop later in the segment must not release its number to a
+    # range that starts before it
+    range_events = [(d.end.t, 0, d) for d in ending_directions]
+    for d in starting_directions:
+        text = d.raw_text or d.text
+        if text in PEDAL_DIRECTIONS or text in DYN_DIRECTIONS:
+            continue
+        if getattr(d, "wedge", False) or (
+            isinstance(d, score.DynamicDirection) and d.end is not None
+        ):
+            range_events.append((d.start.t, 1, d))
+    range_events.sort(key=itemgetter(0, 1))
+    range_numbers = {}
+    for _, is_start, d in range_events:
+        label = "wedge" if getattr(d, "wedge", False) else "dashes"
+        range_numbers[(d, is_start)] = range_number_from_counter(d, label, counter)
+
+    for direction in ending_directions:
         text = direction.raw_text or direction.text
         e0 = etree.Element("direction")
         e1 = etree.SubElement(e0, "direction-type")
+        number = range_numbers[(direction, 0)]
 
         if getattr(direction, "wedge", False):
-            number = range_number_from_counter(direction, "wedge", counter)
             e2 = etree.SubElement(e1, "wedge", number="{}".format(number), type="stop")
 
         else:
-            number = range_number_from_counter(direction, "dashes", counter)
             etree.SubElement(e1, "dashes", number="{}".format(number), type="stop")
 
         elem = (direction.end.t, None, e0)
@@ -771,7 +794,7 @@ def do_directions(part, start, end, counter):
         result.append((direction.end.t, None, make_pedal_stop_el(direction)))
 
     tempos = part.iter_all(score.Tempo, start, end)
-    directions = part.iter_all(score.Direction, start, end, include_subclasses=True)
+    directions = starting_directions
 
     for tempo in tempos:
         # e0 = etree.Element('direction')
@@ -830,7 +853,7 @@ def do_directions(part, start, end, counter):
                 else:
                     wtype = "diminuendo"
 
-                number = range_number_from_counter(direction, "wedge", counter)
+                number = range_numbers[(direction, 1)]
                 e2 = etree.SubElement(
                     e1, "wedge", number="{}".format(number), type=wtype
                 )
@@ -844,7 +867,7 @@ def do_directions(part, start, end, counter):
                     and direction.end is not None
                 ):
                     e3 = etree.SubElement(e0, "direction-type")
-                    number = range_number_from_counter(direction, "dashes", counter)
+                    number = range_numbers[(direction, 1)]
                     etree.SubElement(
                         e3, "dashes", number="{}".format(number), type="start"
                     )
